@@ -34,7 +34,7 @@ ASSUMPTIONS = [
     "exceptions raised inside datagram_received reach the event loop's exception handler, as with asyncio's selector "
     "datagram transport (reproduced by the simulated transport: delivery runs inside a loop callback)",
 ]
-PROBES = ["same_octets_twice_at_the_same_instant", "payload_binding_named_like_a_header_binding", "notification_over_1024_octets", "foreign_community_with_non_ascii_octets", "first_datagram_other_version", "two_listeners", "foreign_community", "truncated", "garbage", "wrong_outer_tag", "bitflip", "other_version", "dup_arrival", "lost",
+PROBES = ["no_pdu_in_pdu_position", "other_pdu_type", "same_octets_twice_at_the_same_instant", "payload_binding_named_like_a_header_binding", "notification_over_1024_octets", "foreign_community_with_non_ascii_octets", "first_datagram_other_version", "two_listeners", "foreign_community", "truncated", "garbage", "wrong_outer_tag", "bitflip", "other_version", "dup_arrival", "lost",
           "reordered", "bad_then_valid", "callback_raises", "slow_callback_overlap", "zero_payload", "eight_payload",
           "long_length_forms", "every_value_kind", "duplicate_payload_oid", "four_emitters", "ipv6_peers",
           "indefinite_no_eoc_reached"]
@@ -89,6 +89,11 @@ def plan_for(tier: str, seed: int, i: int) -> dict:
             payload.append((SYSUPTIME, ("tt", xr.randrange(0, 2**32))))
         elif yr < 0.08:
             payload.append((TRAPOID, ("oid", (1, 3, 6, 1, 4, 1, 99, 1, xr.randrange(1, 9)))))
+        zr = xr.random()
+        if zr < 0.04:
+            cls = "notpdu"       # right community, but no PDU where the PDU belongs (malformed content: never delivered)
+        elif zr < 0.08:
+            cls = "otherpdu"     # a well-formed message carrying a PDU that is not an SNMPv2-Trap (no delivery verdict)
         twice = xr.random() < 0.05
         d = {"n": n, "t": t, "twice": twice, "emitter": rng.randrange(n_em), "listener": li, "cls": cls,
              "uptime": 100000 + n * 7919, "trap_oid": (1, 3, 6, 1, 4, 1, 8072, 2, 3, 0, 1 + n % 5),
@@ -145,6 +150,12 @@ def build(plan: dict, d: dict) -> Tuple[bytes, Optional[list]]:
     if cls == "bitflip":
         vbs[1] = (TRAPOID, ("oid", (1, 3, 6, 1, 4, 1, 99, 99, 99, 99)))  # base never sent unflipped
     pdu = S.mkpdu(S.PDU_TRAP2, d["rid"], vbs)
+    if cls == "otherpdu":
+        pdu = S.mkpdu([S.PDU_RESPONSE, S.PDU_GET, S.PDU_SET, S.PDU_INFORM, S.PDU_REPORT][d["param"] % 5], d["rid"], vbs)
+    if cls == "notpdu":
+        third = [B.enc_int(5), B.enc_str(b"not a pdu"), B.tlv(0x05, b""), B.enc_seq([B.enc_int(d["rid"]), B.enc_int(0), B.enc_int(0), B.enc_seq([])]),
+                 B.enc_oid((1, 3, 6, 1, 6, 3, 1, 1, 5, 1))][d["param"] % 5]
+        return B.enc_seq([B.enc_int(1), B.enc_str(comm), third]), None
     if cls == "foreign":
         other = [b"", comm + b"x", comm[:-1], comm.upper() if comm.upper() != comm else b"zz", b"private-" + comm,
                  comm + b"\xe9", b"\xc3\xbc" + comm, comm[:3] + b"\xa0" + comm[3:], comm + b"\x00"]
@@ -325,7 +336,7 @@ def execute(plan: dict) -> dict:
             fail("trapinfo", "trap #%d: TrapInfo %r, expected %r" % (rec["n"], g["info"], want_info))
         elif g["info"][:3] != want_info[:3]:
             fail("trapinfo", "trap #%d: TrapInfo %r, expected %r" % (rec["n"], g["info"][:3], want_info[:3]))
-    n_noverdict = sum(1 for a in arrivals if a["cls"] in ("bitflip", "version", "unclassified"))
+    n_noverdict = sum(1 for a in arrivals if a["cls"] in ("bitflip", "version", "unclassified", "otherpdu"))
     for n, cnt in sorted(expected.items()):
         if seen.get(n, 0) < cnt:
             fail("not-delivered", "trap #%d arrived %d time(s) at the listener, callback ran %d time(s) for it; arrivals "
@@ -347,10 +358,11 @@ def execute(plan: dict) -> dict:
     arr_cls = [a["cls"] for a in arrivals]
     fired = set(f[2] for f in w.net.fired)
     order = [a["n"] for a in arrivals]
-    first_valid_after_bad = any(c == "valid" and any(x in ("truncated", "garbage", "foreign", "bitflip", "version", "badtag")
+    first_valid_after_bad = any(c == "valid" and any(x in ("truncated", "garbage", "foreign", "bitflip", "version", "badtag", "notpdu", "otherpdu")
                                                      for x in arr_cls[:k]) for k, c in enumerate(arr_cls))
     kinds_seen = set(v[0] for r in records if r["cls"] == "valid" for _, v in r["vbs"][2:])
     probes = {
+        "no_pdu_in_pdu_position": int("notpdu" in arr_cls), "other_pdu_type": int("otherpdu" in arr_cls),
         "same_octets_twice_at_the_same_instant": int(any(d.get("twice") and d["cls"] == "valid" for d in plan["datagrams"])),
         "payload_binding_named_like_a_header_binding": int(any(
             r["cls"] == "valid" and any(tuple(o) in (SYSUPTIME, TRAPOID) for o, _ in r["vbs"][2:]) for r in arrivals)),
